@@ -265,11 +265,22 @@ def rule_automaton(facts):
             pairs.add((di, cidx(src[2])))
     sym = [1 for bb, dst, src in rot if dst[0] == "index" and src[0] == "index" and pat.has_field(src, "rep") and
            tm.of_local(dst[1])[0] != "const"]
-    if {(3, 2), (2, 1), (1, 0)} <= pairs:
-        r.ok("table", {"new-distance rotation": "rep[3]=rep[2]; rep[2]=rep[1]; rep[1]=rep[0]"})
+    # new match: the constant-index stores, replayed in execution order (dominance) on [r0, r1, r2, r3], must give
+    # [_, r0, r1, r2] - the order of the three moves matters
+    cst = []
+    for bb, dst, src in rot:
+        di = dst[1] if dst[0] == "constindex" else cidx(tm.of_local(dst[1]))
+        if di is not None and src[0] == "index" and pat.has_field(src, "rep") and cidx(src[2]) is not None and kind_of(bb) == "match":
+            cst.append((bb, di, cidx(src[2])))
+    cst.sort(key=lambda x: len([y for y in cst if c.dominates(y[0], x[0]) and y[0] != x[0]]))
+    arr = [0, 1, 2, 3]
+    for bb, di, si in cst:
+        arr[di] = arr[si]
+    if {(3, 2), (2, 1), (1, 0)} <= pairs and arr[1:] == [0, 1, 2]:
+        r.ok("evaluation", {"new-distance rotation": "rep[3]=rep[2]; rep[2]=rep[1]; rep[1]=rep[0] in this order: [_, r0, r1, r2]"})
     else:
-        r.bad("automaton|rotation", "the repeat-distance history is not shifted rep[i+1] = rep[i] on a new match: %s"
-              % sorted(pairs), pat.where(b))
+        r.bad("automaton|rotation", "on a new match the repeat-distance history becomes %s (moves %s), the format says [new, r0, r1, r2]"
+              % (["r%d" % x for x in arr], [(d_, s__) for _, d_, s__ in cst]), pat.where(b))
     if sym:
         # rep[i + 1] = rep[i] in the loop over (0..idx).rev()
         okk = False
@@ -278,8 +289,14 @@ def rule_automaton(facts):
                 it = tm.of_local(dst[1])
                 if it[0] == "Add" and pat.has_const(it, 1) and cidx(it) is None:
                     okk = True
+        # the loop must run downwards ((0..idx).rev()): upwards it would smear rep[0] over the history
+        revd = any((flow.callee(blk.term) or "").endswith(("Iterator::rev", "iter::Rev")) or
+                   "Rev<" in (blk.term.args[0].ty.s if blk.term.args else "") for blk in b.calls()
+                   if (flow.declared(blk.term) or "").endswith(("Iterator::rev", "Iterator::next")))
+        if okk and not revd:
+            okk = False
         if okk:
-            r.ok("table", {"rep-match rotation": "rep[i+1] = rep[i] for i < idx, then rep[0] = old rep[idx]"})
+            r.ok("table", {"rep-match rotation": "rep[i+1] = rep[i] for i = idx-1 down to 0, then rep[0] = old rep[idx]"})
         else:
             r.bad("automaton|rep-rotation", "the rep-match rotation is not rep[i+1] = rep[i]", pat.where(b))
     else:
